@@ -58,6 +58,9 @@ class DType:
         return hash(self.kind)
 
 
+_SIZE_MODE = {"large": False}
+
+
 @dataclass(frozen=True)
 class Arr:
     ndim: int
@@ -71,6 +74,15 @@ class Arr:
     @property
     def shape(self) -> tuple:
         return (3,) * self.ndim
+
+    @property
+    def size(self) -> int:
+        # the number of entries is not part of the abstraction: rules that meet size-gated code interpret it once for small and once for LARGE arrays
+        return 10 ** 12 if _SIZE_MODE["large"] else 3 ** self.ndim
+
+    @property
+    def nbytes(self) -> int:
+        return 8 * self.size
 
     def labels(self) -> tuple:
         return self.prov if self.prov is not None else (None,) * self.ndim
